@@ -187,7 +187,7 @@ PROPS.update({
                  conc=("TestConcC06", "Invariant: every workload finishes within 20 s (normal: milliseconds): no lock-order deadlock between completions, picks and balancer callbacks, no leaked lock.", 300, 12000, "TestSchedC06")),
     "C20": _pool("TestC20", "Profile 'addresses' (>=3 address lists, resolver errors, growth, refreshes at every stage). Oracle: after every update every alive pool conn has the latest list and was asked to reconnect; growth and replacement conns are created with the latest list; a replacement takes over with the latest list; a resolver error causes no ClientConn call.",
                  "a resolver update while a replacement exists followed by its swap, or growth",
-                 conc=("TestConcC20", "Invariant: after a workload with many resolver updates racing with refreshes, every connection that belongs to the pool (incl. replacements that took over) uses the latest resolved address list.", 120, 6000)),
+                 conc=("TestConcC20", "Invariant: after a workload with many resolver updates racing with refreshes, every connection that belongs to the pool (incl. replacements that took over) uses the latest resolved address list.", 200, 6000, "TestSchedC20")),
 })
 
 def _gme(test, rule, nontriv):
